@@ -114,18 +114,21 @@ pub trait Terminal: Write + Send {
                         renderer.clear(self)?;
                         renderer = TerminalRenderer::new(self, true)?;
                     }
+                    // drop frames if we are too far behind
+                    //
+                    // NOTE: this must happen before handler is called, as clearing
+                    //       renderer also erases everything drawn on its surface.
+                    if self.frames_pending() > TERMINAL_FRAMES_DROP {
+                        tracing::warn!(
+                            "[Terminal.run_render] dropping frames: {}",
+                            self.frames_pending()
+                        );
+                        self.frames_drop();
+                        renderer.clear(self)?;
+                    }
                     // handle event
                     let action = handler(self, event, renderer.surface())?;
                     if !matches!(action, TerminalAction::WaitNoFrame) {
-                        // drop frames if we are too far behind
-                        if self.frames_pending() > TERMINAL_FRAMES_DROP {
-                            tracing::warn!(
-                                "[Terminal.run_render] dropping frames: {}",
-                                self.frames_pending()
-                            );
-                            self.frames_drop();
-                            renderer.clear(self)?;
-                        }
                         // render frame
                         self.execute(TerminalCommand::DecModeSet {
                             enable: true,
